@@ -2,10 +2,13 @@
 Gallina printers for configs / schedules / observations, generators of programs and schedules."""
 import itertools
 import json
+import logging
 import warnings
 
 import coqio
 import portgen
+
+logging.disable(logging.CRITICAL)      # plumpy logs every swallowed exception; the harness provokes thousands of them
 from coqio import c_str, c_bool, c_list, c_opt, c_nat, c_val, c_exn, c_pair
 
 CORR_MODULE = 'Mon PortModel Model Run Corr_Life'
@@ -230,7 +233,20 @@ def run_case(case, klass=None, sample=None):
         except Exception as e:
             return {'trace': trace, 'final': None, 'samples': [], 'constructor_raised': coqio.canon_exception(e)}
         proc.add_process_listener(scripted.ScriptedListener(case, trace, actions))
+        # three registered cleanups: the first one fails (a lost connection, say) — the others must still run, each exactly once;
+        # only the middle one is an event of the model's trace, the other two are counted on the side
+        extra = {'failing-first': 0, 'last': 0}
+
+        def failing_first():
+            extra['failing-first'] += 1
+            raise scripted.UserError('cleanup failed')
+
+        def last():
+            extra['last'] += 1
+        proc.add_cleanup(failing_first)
         proc.add_cleanup(lambda: trace.append(['cleanup', 0]))
+        proc.add_cleanup(last)
+        side.append(['extra_cleanups', extra])
         t0 = sc.loop.create_task(proc.step_until_terminated())
 
         def flush():
